@@ -308,7 +308,13 @@ func SolveAll(obs []*Obligation, workers int, timeoutMs int, solvers []string, c
 							others = append(others, n)
 						}
 					}
-					r2, _, who2, secs2 := s.checkScript(ob.Script, ob.Vars, timeoutMs, false, others...)
+					// the confirmation gets at most a minute: a goal only one solver can decide within the cap is reported as
+					// "cross-check inconclusive", it does not hold the whole run for the full cap
+					ccMs := timeoutMs
+					if ccMs > 60000 {
+						ccMs = 60000
+					}
+					r2, _, who2, secs2 := s.checkScript(ob.Script, ob.Vars, ccMs, false, others...)
 					ob.Secs += secs2
 					if r2 == Sat {
 						ob.Result = Unknown
